@@ -52,17 +52,20 @@ theorem detected_positions_in_range (w num den : Nat) (hw : 1 ≤ w) (s : Int) (
     3' side
     * exons removed (`a > 0`): the internal polyA position found inside the alignment is recorded on/adjacent to the
       last retained exon — at its end plus at most the length of the first removed exon minus one (the non-A bases at
-      the start of that exon); the external position is recorded at or after that end, at most the removed genomic
-      span plus the soft clip away; an absent position stays absent;
+      the start of that exon); the external position is recorded between that end and the recorded internal position
+      (repaired code; `tail_on_retained_exon`); an absent position stays absent;
     * no terminal exon looks like a tail (`count_polya_exons = 0`): nothing is removed on this side and the recorded
       internal position is the finder's, which lies on the last exon or after it, at most `max 1 clip` past `reference_end`.
     5' side: mirror image, around the start of the first retained exon.
 
     (The remaining case — both sides claim so many exons that the counts are cut down — leaves the positions where
     the finder put them; `tail_moved_onto_retained` covers it.) -/
-theorem record_tail_on_retained_exon (w num den : Nat) (hw : 1 ≤ w) (s : Int) (ops : List CigarOp)
-    (seq : List Char) (mf : Int) (info : PolyAInfo) (hs : 0 ≤ s) (hp : Pos ops)
-    (hdet : detectPolya w num den s ops seq = some info)
+theorem record_tail_on_retained_exon_of_ranges (s : Int) (ops : List CigarOp)
+    (mf : Int) (info : PolyAInfo) (hs : 0 ≤ s) (hp : Pos ops)
+    (hrA : ∀ x, (x = info.internalPolyA ∨ x = info.externalPolyA) → x ≠ -1 →
+      s + 1 ≤ x ∧ x ≤ referenceEnd s ops + max 1 (softClipTail ops))
+    (hrT : ∀ x, (x = info.internalPolyT ∨ x = info.externalPolyT) → x ≠ -1 →
+      max 1 (s - max 1 (softClipHead ops)) ≤ x ∧ x ≤ max 1 (referenceEnd s ops - 1))
     (hne : (getReadBlocks s ops).refBlocks ≠ []) :
     ∃ (r : AInfo) (a t : Int),
       addPolyaInfo mf (getReadBlocks s ops).refBlocks (getReadBlocks s ops).readBlocks
@@ -76,8 +79,7 @@ theorem record_tail_on_retained_exon (w num den : Nat) (hw : 1 ≤ w) (s : Int) 
           r.info.internalPolyA ≤ lastKept.2 + max 0 (firstRemoved.2 - firstRemoved.1 - 1)) ∧
         (info.externalPolyA = -1 → r.info.externalPolyA = -1) ∧
         (info.externalPolyA ≠ -1 → lastKept.2 ≤ r.info.externalPolyA ∧
-          r.info.externalPolyA ≤ lastKept.2 +
-            (referenceEnd s ops + max 1 (softClipTail ops) - firstRemoved.1))) ∧
+          r.info.externalPolyA ≤ r.info.internalPolyA)) ∧
       (countPolyaExons mf (getReadBlocks s ops).refBlocks info.internalPolyA = 0 → info.internalPolyA ≠ -1 →
         ∃ last : Iv, (getReadBlocks s ops).refBlocks.getLast? = some last ∧
           r.info.internalPolyA = info.internalPolyA ∧ last.1 ≤ r.info.internalPolyA ∧
@@ -89,7 +91,8 @@ theorem record_tail_on_retained_exon (w num den : Nat) (hw : 1 ≤ w) (s : Int) 
             (old = info.externalPolyT ∧ new = r.info.externalPolyT) →
           (old = -1 → new = -1) ∧
           (old ≠ -1 → new ≤ firstKept.1 ∧
-            firstKept.1 - (lastRemoved.2 - max 1 (s - max 1 (softClipHead ops))) ≤ new))) ∧
+            firstKept.1 - (lastRemoved.2 - max 1 (s - max 1 (softClipHead ops))) ≤ new)) ∧
+        (info.externalPolyT ≠ -1 → r.info.internalPolyT ≤ r.info.externalPolyT)) ∧
       (countPolytExons mf (getReadBlocks s ops).refBlocks info.internalPolyT = 0 → info.internalPolyT ≠ -1 →
         ∃ first : Iv, (getReadBlocks s ops).refBlocks.head? = some first ∧
           r.info.internalPolyT = info.internalPolyT ∧ r.info.internalPolyT ≤ first.2 ∧
@@ -99,7 +102,6 @@ theorem record_tail_on_retained_exon (w num den : Nat) (hw : 1 ≤ w) (s : Int) 
   have hsd : SD (getReadBlocks s ops).refBlocks := ⟨fun e he => (hsw.1 e he).2, hsw.2⟩
   have hwithin := C16.exons_within_reference_end s ops hs hnn
   obtain ⟨g1, g2⟩ := referenceEnd_ge s ops hnn
-  obtain ⟨hrA, hrT⟩ := detected_positions_in_range w num den hw s ops seq hnn info hdet
   generalize hex : (getReadBlocks s ops).refBlocks = exons at *
   generalize (getReadBlocks s ops).readBlocks = rb
   generalize (getReadBlocks s ops).cigarBlocks = cb
@@ -112,6 +114,20 @@ theorem record_tail_on_retained_exon (w num den : Nat) (hw : 1 ≤ w) (s : Int) 
   obtain ⟨a'', t'', hcri'', _, hale, htle, _⟩ := correctReadInfo_spec mf exons info hne
   rw [hcri] at hcri''
   obtain ⟨rfl, rfl⟩ := Prod.mk.inj (Option.some.inj hcri'')
+  obtain ⟨r5, a5, t5, hr5, hcri5, hA5, hT5⟩ := C16PolyA.tail_on_retained_exon mf exons rb cb info hsd hne
+  rw [hr] at hr5
+  rw [hcri] at hcri5
+  obtain rfl := Option.some.inj hr5
+  obtain ⟨rfl, rfl⟩ := Prod.mk.inj (Option.some.inj hcri5)
+  have hxA : 0 < a → info.externalPolyA ≠ -1 → r.info.externalPolyA ≤ r.info.internalPolyA := by
+    intro ha hea
+    obtain ⟨_, _, _, _, _, _, _, _, hx⟩ := hA5 ha
+    exact (hx hea).2
+  have hxT : 0 < t → info.externalPolyT ≠ -1 → r.info.internalPolyT ≤ r.info.externalPolyT := by
+    intro ht het
+    obtain ⟨_, _, _, _, _, _, _, _, hx⟩ := hT5 ht
+    exact (hx het).1
+  clear hA5 hT5
   -- the result's exons are a contiguous part of the input: ordering facts between kept and removed exons
   obtain ⟨a2, t2, st0, st1, st2, r2, hcri2, hlt, _, _, _, _, _, _, hr2, _, hre, _⟩ :=
     addPolyaInfo_spec mf exons rb cb info hne
@@ -163,9 +179,7 @@ theorem record_tail_on_retained_exon (w num den : Nat) (hw : 1 ≤ w) (s : Int) 
       rw [hval]
       omega
     · intro hea
-      obtain ⟨h1, h2⟩ := hme.2 hea
-      obtain ⟨_, h3⟩ := hrA _ (Or.inr rfl) hea
-      omega
+      exact ⟨(hme.2 hea).1, hxA ha hea⟩
   · intro hc hia
     have ha0 : a ≤ 0 := by omega
     obtain ⟨l, hl⟩ : ∃ l, exons.getLast? = some l := by
@@ -190,7 +204,9 @@ theorem record_tail_on_retained_exon (w num den : Nat) (hw : 1 ≤ w) (s : Int) 
     have hlrm := hmem _ _ hlr
     have hlr1 := (hsw.1 _ hlrm).1
     have hlrwf := hsd.1 _ hlrm
-    refine ⟨firstKept, lastRemoved, by rw [hhead]; exact hfk, hlr, hgap, hlr1, ?_⟩
+    refine ⟨firstKept, lastRemoved, by rw [hhead]; exact hfk, hlr, hgap, hlr1, ?_, ?_⟩
+    rotate_left
+    · exact hxT ht
     rintro old new (⟨rfl, rfl⟩ | ⟨rfl, rfl⟩)
     · refine ⟨hmi.1, fun hne1 => ?_⟩
       obtain ⟨h1, h2⟩ := hmi.2 hne1
@@ -214,10 +230,50 @@ theorem record_tail_on_retained_exon (w num den : Nat) (hw : 1 ≤ w) (s : Int) 
     · rw [(hT0 ht0).1]; omega
     · rw [(hT0 ht0).1]; exact h3
 
+/-- `record_tail_on_retained_exon` for the positions of the modelled finder (`detect_polya`; head window before the
+    c16x repair – the statement for the repaired window is `record_tail_on_retained_exon_win`,
+    Props/C16FinderMirror.lean: same conclusion, the ranges of the positions do not depend on the window) -/
+theorem record_tail_on_retained_exon (w num den : Nat) (hw : 1 ≤ w) (s : Int) (ops : List CigarOp)
+    (seq : List Char) (mf : Int) (info : PolyAInfo) (hs : 0 ≤ s) (hp : Pos ops)
+    (hdet : detectPolya w num den s ops seq = some info)
+    (hne : (getReadBlocks s ops).refBlocks ≠ []) :
+    ∃ (r : AInfo) (a t : Int),
+      addPolyaInfo mf (getReadBlocks s ops).refBlocks (getReadBlocks s ops).readBlocks
+        (getReadBlocks s ops).cigarBlocks info = some r ∧
+      correctReadInfo mf (getReadBlocks s ops).refBlocks info = some (a, t) ∧
+      (0 < a → ∃ lastKept firstRemoved : Iv, r.exons.getLast? = some lastKept ∧
+        (getReadBlocks s ops).refBlocks[(getReadBlocks s ops).refBlocks.length - a.toNat]? = some firstRemoved ∧
+        lastKept.2 < firstRemoved.1 ∧ firstRemoved.2 ≤ referenceEnd s ops ∧
+        (info.internalPolyA = -1 → r.info.internalPolyA = -1) ∧
+        (info.internalPolyA ≠ -1 → lastKept.2 ≤ r.info.internalPolyA ∧
+          r.info.internalPolyA ≤ lastKept.2 + max 0 (firstRemoved.2 - firstRemoved.1 - 1)) ∧
+        (info.externalPolyA = -1 → r.info.externalPolyA = -1) ∧
+        (info.externalPolyA ≠ -1 → lastKept.2 ≤ r.info.externalPolyA ∧
+          r.info.externalPolyA ≤ r.info.internalPolyA)) ∧
+      (countPolyaExons mf (getReadBlocks s ops).refBlocks info.internalPolyA = 0 → info.internalPolyA ≠ -1 →
+        ∃ last : Iv, (getReadBlocks s ops).refBlocks.getLast? = some last ∧
+          r.info.internalPolyA = info.internalPolyA ∧ last.1 ≤ r.info.internalPolyA ∧
+          r.info.internalPolyA ≤ referenceEnd s ops + max 1 (softClipTail ops)) ∧
+      (0 < t → ∃ firstKept lastRemoved : Iv, r.exons.head? = some firstKept ∧
+        (getReadBlocks s ops).refBlocks[t.toNat - 1]? = some lastRemoved ∧
+        lastRemoved.2 < firstKept.1 ∧ s + 1 ≤ lastRemoved.1 ∧
+        (∀ old new, (old = info.internalPolyT ∧ new = r.info.internalPolyT) ∨
+            (old = info.externalPolyT ∧ new = r.info.externalPolyT) →
+          (old = -1 → new = -1) ∧
+          (old ≠ -1 → new ≤ firstKept.1 ∧
+            firstKept.1 - (lastRemoved.2 - max 1 (s - max 1 (softClipHead ops))) ≤ new)) ∧
+        (info.externalPolyT ≠ -1 → r.info.internalPolyT ≤ r.info.externalPolyT)) ∧
+      (countPolytExons mf (getReadBlocks s ops).refBlocks info.internalPolyT = 0 → info.internalPolyT ≠ -1 →
+        ∃ first : Iv, (getReadBlocks s ops).refBlocks.head? = some first ∧
+          r.info.internalPolyT = info.internalPolyT ∧ r.info.internalPolyT ≤ first.2 ∧
+          max 1 (s - max 1 (softClipHead ops)) ≤ r.info.internalPolyT) := by
+  obtain ⟨hrA, hrT⟩ := detected_positions_in_range w num den hw s ops seq hp.nonneg info hdet
+  exact record_tail_on_retained_exon_of_ranges s ops mf info hs hp hrA hrT hne
+
 /-- non-vacuity: `60M 100N 20M 20S` at 1000, read = 62 C + 38 A (18 aligned A's form most of the second exon, 20 are
     soft-clipped): the finder reports internal 1162 / external 1178, the second exon is removed (`a = 1`), the
     internal position is recorded at 1061 = end of the retained exon + 1 (the one non-A base 1161 of the removed
-    exon), the external one at 1077 -/
+    exon), the external one at 1061 as well (repaired code: cut down to the internal position; before: 1077) -/
 example :
     let ops : List CigarOp := [(.«match», 60), (.skipped, 100), (.«match», 20), (.soft_clipping, 20)]
     let seq : List Char := List.replicate 62 'C' ++ List.replicate 38 'A'
@@ -226,7 +282,7 @@ example :
     correctReadInfo 40 (getReadBlocks 1000 ops).refBlocks ⟨1178, -1, 1162, -1⟩ = some (1, 0) ∧
     (addPolyaInfo 40 (getReadBlocks 1000 ops).refBlocks (getReadBlocks 1000 ops).readBlocks
       (getReadBlocks 1000 ops).cigarBlocks ⟨1178, -1, 1162, -1⟩).map (fun r => (r.exons, r.info))
-      = some ([(1001, 1060)], ⟨1077, -1, 1061, -1⟩) := by
+      = some ([(1001, 1060)], ⟨1061, -1, 1061, -1⟩) := by
   refine ⟨?_, by decide, by decide, by decide, by decide⟩
   intro o ho; simp at ho; rcases ho with h | h | h | h <;> subst h <;> decide
 
